@@ -341,3 +341,48 @@ func VerifC14Handle() {
 	_, serr := hackpadfs.Stat(fs, "b")
 	verifAssert(serr == nil, "after the failure Stat of an existing file fails")
 }
+
+// VerifC14Outage: the store refuses every call (an outage that lasts longer than one call): every
+// file-system operation returns an error - none reports success, none panics or hangs - handles opened
+// before keep answering, and once the store is back the file system shows exactly what it held before.
+func VerifC14Outage() {
+	store := pNewStore()
+	var fs hackpadfs.FS
+	var err error
+	if kind := verifChoice("store-kind", 3); kind == 2 {
+		verifTag("store", "atomic-transaction-store")
+		fs, err = keyvalue.NewFS(c14TxnStore{store, new(sync.Mutex), true, false})
+	} else if kind == 1 {
+		verifTag("store", "transaction-store")
+		fs, err = keyvalue.NewFS(c14TxnStore{store, new(sync.Mutex), false, false})
+	} else {
+		verifTag("store", "plain-store")
+		fs, err = keyvalue.NewFS(store)
+	}
+	verifAssert(err == nil, "keyvalue.NewFS failed")
+	t := rNewTree()
+	rSymTree(fs, t)
+	before := t.clone()
+	var h hackpadfs.File
+	if t.kind("b") == rFile {
+		h, err = hackpadfs.OpenFile(fs, "b", hackpadfs.FlagReadWrite, 0)
+		verifAssert(err == nil, "OpenFile b")
+	}
+	store.failing = true
+	K := verifParam("K")
+	for i := 0; i < K; i++ {
+		r := rStep(fs, t.clone(), verifChoice(verifName("op", i), len(rOpNames)), false)
+		verifAssert(r.err != nil, "an operation reported success although the store refuses every call")
+	}
+	verifReach("ops-returned")
+	if h != nil {
+		_, _ = h.Stat()
+		_, _ = h.Read(make([]byte, 1))
+		_, werr := hackpadfs.WriteFile(h, []byte{1})
+		verifAssert(werr != nil, "a Write through an open handle reported success although the store refuses every call")
+		_ = h.Close()
+	}
+	store.failing = false
+	rCompare(fs, before, "after the outage")
+	verifReach("afterwards-ok")
+}
